@@ -137,4 +137,21 @@ func init() {
 		Technique: "runtime monitoring: Go race detector + per-stream trace monitors under randomized stress with injected delays; (systematic schedule enumeration + porcupine in the sched phases)",
 		DesignRef: "DESIGN.md §3 C12",
 	})
+	add(Spec{
+		PropSpec: vlib.PropSpec{
+			ID: "C20", Level: "exploration",
+			Rule: "enum phase: every delivery script of <= 2 batches x 1..2 slices (plus all 3-batch scripts of single slices) with slice lengths {0,1,5} and skips {0,3}, followed by completion, crossed with every consumer script: 0..3 (thorough 0..4) leading reads of sizes {0,1,7} (thorough {0,1,3,7,64}) then one of {read to EOF with 1-byte reads, read to EOF with 4096-byte reads, Close, Close+Read, Close+Close, Close+read to EOF}, LossErrors off and on; the assembler side calls Reassembled/ReassemblyComplete exactly as tcpassembly does, in its own goroutine. assembler phase: real Assembler over generated out-of-order histories with a ReaderStream per direction, consumers with PRNG read sizes, LossErrors, and Close after a PRNG number of reads (race build). Oracle: bytes read == (prefix of) the concatenation handed over, EOF only after completion, one DataLost per gap that is followed by data when asked, no panic, and BOTH goroutines finish - a deadlock is decided from a goroutine snapshot (all unfinished parties parked on the stream's channels), the timer only decides when to look. Non-trivial = scenario with >= 2 batches and >= 1 leading read; distinct by (delivery script, consumer script).",
+			Assumptions: []string{"a slice with a skip but no bytes is not required to produce DataLost (the statement does not say)", "a consumer that neither keeps reading nor closes is outside the property"},
+			Phases: []vlib.Phase{
+				{Name: "enum", Bin: "vtcpasm", Quick: 16, Thorough: 16, Procs: 2, Parallel: 16},
+				{Name: "assembler", Bin: "vtcpasm", Race: true, Quick: 8, Thorough: 16, Procs: 4, Parallel: 4},
+			},
+			Require:    []string{"scenarios_enumerated", "streams_read_to_eof", "streams_closed_by_consumer"},
+			Exhaustive: func(string) bool { return false },
+		},
+		LevelText: "Runtime monitor: the real ReaderStream is driven through an enumerated space of delivery x consumer scripts (each in two real goroutines) and through a real Assembler; a byte-stream model and a snapshot-based deadlock detector decide each scenario.",
+		LevelNote: trusted,
+		Technique: "runtime monitoring: scenario enumeration with reference byte-stream model, snapshot-based deadlock detection, Go race detector on the end-to-end phase",
+		DesignRef: "DESIGN.md §3 C20",
+	})
 }
